@@ -366,13 +366,21 @@ class _FnAnalysis:
         for test, pol in self.guards:
             t = test if pol else _negate(test)
             for a in _conjuncts(t):
-                if isinstance(a, ast.Compare) and len(a.ops) == 1 and isinstance(a.ops[0], (ast.Eq, ast.In)) and self.is_self_attr_node(a.left):
+                opt = None
+                if isinstance(a, ast.Compare) and len(a.ops) == 1 and isinstance(a.ops[0], (ast.Eq, ast.In)):
+                    if self.is_self_attr_node(a.left):
+                        opt = a.left.attr
+                    elif isinstance(a.left, ast.Name) and hasattr(self.fn, "args") and a.left.id not in astq.all_param_names(self.fn):
+                        vals_ = astq.assigned_values(self.fn, a.left.id)
+                        if len(vals_) == 1 and self.is_self_attr_node(vals_[0]):
+                            opt = vals_[0].attr  # a local bound once to self.<option>
+                if opt is not None:
                     c = a.comparators[0]
                     consts = c.elts if isinstance(c, (ast.List, ast.Tuple, ast.Set)) else [c]
                     if consts and all(isinstance(x, ast.Constant) and isinstance(x.value, (str, int, float)) and not isinstance(x.value, bool)
                                       for x in consts):
                         vals = sorted(repr(x.value) for x in consts)
-                        atoms.add("self.%s=%s" % (a.left.attr, "|".join(vals)))
+                        atoms.add("self.%s=%s" % (opt, "|".join(vals)))
         return "&".join(sorted(atoms))
 
     def is_self_attr_node(self, n):
@@ -1031,21 +1039,27 @@ class _FnAnalysis:
                     continue  # default value: fresh
                 self.emit(ev_.kind, v, ev_.via, ev_.desc, call, sure=ev_.sure,
                           chain=(cname,) + ev_.chain if len(ev_.chain) < 6 else ev_.chain, loc=ev_.loc, guard=ev_.guard)
+            elif t.kind == "method" and ev_.origin.startswith("self.") and st.get(ev_.origin) is not None:
+                # the callee works on what the caller currently keeps in that attribute (e.g. a list re-created just before the call)
+                self.emit(ev_.kind, st[ev_.origin], ev_.via, ev_.desc, call, sure=ev_.sure,
+                          chain=(cname,) + ev_.chain if len(ev_.chain) < 6 else ev_.chain, loc=ev_.loc, guard=ev_.guard)
             else:
                 # origin is self.<attr> (same receiver) or a captured name: passes through unchanged
                 if t.kind == "method":
                     e2 = Event(ev_.kind, ev_.origin, ev_.via, ev_.sure, ev_.desc, ev_.loc,
                                (cname,) + ev_.chain if len(ev_.chain) < 6 else ev_.chain, self.guard_desc() or ev_.guard)
                     self.events.setdefault(e2.key(), e2)
+        cur_self = {k_: v_ for k_, v_ in st.items() if k_.startswith("self.")} if t.kind == "method" else {}
         if t.kind == "method" and s.self_out:
             # what the callee leaves on the (same) receiver is visible to the caller afterwards
             for key, val in s.self_out.items():
-                st[key] = self.subst(val, actual, names, keep_self=True)
-        return self.subst(s.ret, actual, names, keep_self=(t.kind == "method"))
+                st[key] = self.subst(val, actual, names, keep_self=True, cur_self=cur_self)
+        return self.subst(s.ret, actual, names, keep_self=(t.kind == "method"), cur_self=cur_self)
 
-    def subst(self, v, actual, names, keep_self):
+    def subst(self, v, actual, names, keep_self, cur_self=None):
+        cur_self = cur_self or {}
         if v.items is not None:
-            return Val([F], [self.subst(i, actual, names, keep_self) for i in v.items])
+            return Val([F], [self.subst(i, actual, names, keep_self, cur_self) for i in v.items])
         out = [FRESH]
         for a in v.atoms:
             if a == F:
@@ -1057,6 +1071,10 @@ class _FnAnalysis:
                     continue
                 out.append({"A": lambda x: x, "V": viewify, "W": subify, "E": elemify, "U": unknownify,
                             "X": lambda x: elemify(unknownify(x))}[k](av))
+            elif o in cur_self:
+                cv = cur_self[o]
+                out.append({"A": lambda x: x, "V": viewify, "W": subify, "E": elemify, "U": unknownify,
+                            "X": lambda x: elemify(unknownify(x))}[k](cv))
             elif keep_self or not o.startswith("self."):
                 out.append(Val([a]))
         res = join_all(out)
